@@ -497,7 +497,7 @@ fn check_messy(c: &MessyCase, ctx: &Ctx) -> Outcome {
     })();
     ctx.done(&dir);
     match r {
-        Err(Outcome::Fail(msg)) => Outcome::Fail(format!("k={k} m={mfrac} samples={}: {msg}", super::c07::show_samples(&samples))),
+        Err(Outcome::Fail(msg)) => Outcome::Fail(format!("k={k} m={mfrac} samples={}: {msg}", super::common::show_samples(&samples))),
         Err(o) => o,
         Ok(None) => pass(false, 0, vec!["no_entry_node(refusal)"]),
         Ok(Some(n)) => pass(n > 0, key_of(&(k, c.m, &samples)), if n > 0 { vec!["columns_emitted"] } else { vec!["no_columns"] }),
